@@ -29,7 +29,7 @@ const (
 
 func nodeOps(quick bool) []opDef {
 	ops := []opDef{
-		{okAdd, window.EvPass, 1}, {okAdd, window.EvPass, 3}, {okAdd, window.EvRt, 7}, {okAdd, window.EvRt, 70000},
+		{okAdd, window.EvPass, 1}, {okAdd, window.EvPass, 3}, {okAdd, window.EvRt, 7}, {okAdd, window.EvRt, 70000}, {okAdd, window.EvRt, 0},
 		{okAdd, window.EvComplete, 1}, {Kind: okInc}, {Kind: okDec},
 	}
 	if !quick {
